@@ -24,7 +24,7 @@ def main():
             "thorough_cmd": "./check %s --tier thorough" % pid,
             "evidence_file": "/verif/evidence/%s.json" % pid,
             "replay_cmd_template": "./check replay {path}",
-            "engine": c.get("engine", "kani-cbmc"),
+            "engine": c.get("engine", "kani-cbmc + mir2smt" if c.get("smt") else "kani-cbmc"),
             "level_claimed": {
                 "category": "model_checking",
                 "text": c.get("level_text", "Bounded model checking of the compiled code: the solver decides every "
